@@ -709,6 +709,25 @@ class Tables:
                 except Exception:  # pylint: disable=broad-except
                     res = None
                 wval.append({'name': n, 'val': r, 'res': res})
+        # the laws the reload theorems assume of the datatypes, tested on every value an import produced:
+        # (codec) import(export v) = v; (write path) validate accepts v unchanged or refuses it
+        wv = {(e['name'], e['val']): e['res'] for e in wval}
+        ex = {(e['name'], e['val']): e['json'] for e in exp}
+        im = {(n, json.dumps(tr(j), sort_keys=True)): r for (n, _), (j, r) in self.imp.items()}
+        self.laws = {'codec.ok': 0, 'codec.broken': [], 'wval.ok': 0, 'wval.broken': []}
+        for (n, _), (_, r) in self.imp.items():
+            if r is None:
+                continue
+            if wv.get((n, r)) in (None, r):
+                self.laws['wval.ok'] += 1
+            else:
+                self.laws['wval.broken'].append([n, r, wv.get((n, r))])
+            if (n, r) in ex:
+                back = im.get((n, json.dumps(ex[(n, r)], sort_keys=True)), '<not imported>')
+                if back == r:
+                    self.laws['codec.ok'] += 1
+                else:
+                    self.laws['codec.broken'].append([n, r, back])
         return {
             'parse': [{'hex': h, 'dec': top(dec) if ok else None} for h, (ok, dec) in self.parse.items()],
             'ser': [{'dict': top(d), 'chunks': ch} for d, ch in self.ser.values()],
@@ -799,6 +818,21 @@ def nongiven_saved(spec, ref, values):
     return [[n, v] for n, v in values if ref['persistent'].get(n) and n not in given]
 
 
+_laws = []   # law statistics of the tables built since the last call of `take_laws`
+
+
+def take_laws(res, full):
+    """moves the law statistics into the result; a broken law is a hypothesis of the theorems not met by the real datatypes"""
+    for lw in _laws:
+        res.count('law.codec.ok', lw['codec.ok'])
+        res.count('law.wval-idempotent.ok', lw['wval.ok'])
+        for kind in ('codec.broken', 'wval.broken'):
+            for b in lw[kind][:3]:
+                res.disagreements.append({'case': full, 'model': 'law ' + kind.split('.')[0] + ' assumed by the reload theorems',
+                                          'impl': b})
+    del _laws[:]
+
+
 def history_tables(spec, case, ref, impl):
     """oracle tables (json, datatypes) covering every value and file content of one history"""
     steps = impl['steps']
@@ -825,7 +859,9 @@ def history_tables(spec, case, ref, impl):
     for d in impl['datas']:
         tb.add_data(d)
     # datas of intermediate value combinations cannot be enumerated in advance: add what the closure found
-    return tb.close()
+    tables = tb.close()
+    _laws.append(tb.laws)
+    return tables
 
 
 def reload_requests(spec, case, ref, impl, tables):
@@ -867,7 +903,9 @@ def shrink_reload(ctx, spec, case, ref, key):
             return False
         rq = reload_requests(spec, c, ref, impl, history_tables(spec, c, ref, impl))
         return any(a.get(key) for a in ctx.driver.batch([r for _, r in rq])) if rq else False
-    return dict(case, acts=ddmin(case['acts'], fails, max_tests=60))
+    small = ddmin(case['acts'], fails, max_tests=60)
+    del _laws[:]
+    return dict(case, acts=small)
 
 
 def check_case(ctx, res, spec, case, quick_crash=3, kind='history'):
@@ -891,6 +929,7 @@ def check_case(ctx, res, spec, case, quick_crash=3, kind='history'):
         res.count('start.aborted')
         return
     tables = history_tables(spec, case, ref, impl)
+    take_laws(res, full)
 
     reqs, tags = [], []
     reqs.append(model_request(spec, case, ref, impl, tables))
@@ -1029,6 +1068,7 @@ def check_case(ctx, res, spec, case, quick_crash=3, kind='history'):
             impl2 = run_impl(spec, cand, trials=False)
             rq = reload_requests(spec, cand, ref, impl2, history_tables(spec, cand, ref, impl2))
             v2 = [(i, a) for (i, _), a in zip(rq, ctx.driver.batch([r for _, r in rq])) if a.get('thisrun') or a.get('restores')]
+            del _laws[:]
             if v2:
                 small, sm_steps, verdicts = cand, impl2['steps'], v2
         res.violations.extend(reload_findings(spec, small, kind, sm_steps, verdicts))
